@@ -48,6 +48,15 @@ theorem facts_half_close_whatever_the_reason :
     count "call closeWrite" connectBlind = 1 ∧ count "call io.Copy" connectBlind = 1 := by
   decide
 
+/-- The failed-dial branch tests only `cerr != nil` and answers with the constant 502 plus a Warning;
+it returns the result of the flush (the connection is kept). -/
+theorem facts_dial_failure_status_is_constant_502 :
+    hasBlock ["set cerr = p.connect(req)", "if cerr != nil {", "call proxyutil.NewResponse(502)", "call proxyutil.Warning"]
+      connectBlind = true ∧
+    hasSeq ["if cerr != nil {", "call res.Write", "call brw.Flush", "return err", "}", "defer cconn.Close"] connectBlind = true ∧
+    count "call proxyutil.NewResponse(502)" connectBlind = 1 ∧ count "call proxyutil.NewResponse(200)" connectBlind = 0 := by
+  decide
+
 /-- Nothing in the blind branch or in `connect` calls SetLinger / Set(Read|Write)Deadline. -/
 theorem facts_tunnel_sockopts :
     Martian.Generated.Tunnel.tunnelSockopts = [] ∧
